@@ -266,6 +266,7 @@ pub const NETS: &[&str] = &[
     "combine2(sh,sh)",
     "for_each(merge2)",
     "for_each(concat2)",
+    "merge2(merge2,.)",
 ];
 
 /// Networks of several real operators over puppets: the protocol oracles (C01-C05, C17) are
@@ -353,6 +354,10 @@ fn build_net(name: &str) -> WorldRt {
                 })),
                 ..Default::default()
             }
+        },
+        "merge2(merge2,.)" => {
+            let inner: Src = Arc::new(callbag::merge(b(vec![p[0].clone(), p[1].clone()])));
+            probe_world(Arc::new(callbag::merge(b(vec![inner, p[2].clone()]))), rec_i64())
         },
         other => panic!("unknown net {other}"),
     }
